@@ -53,6 +53,9 @@ type req struct {
 	// DrainTimeoutUs > 0: the server connection is opened with nats.DrainTimeout (a configuration
 	// dimension: the property must not depend on the drain finishing within that option)
 	DrainTimeoutUs int `json:"drain_timeout_us"`
+	// HighWatermarkUs > 0: the builder's WithHighWatermark option (a request that waited longer in the queue is
+	// to be warned about, nothing else); the default event handlers always run underneath the recording ones
+	HighWatermarkUs int `json:"high_watermark_us"`
 	Ops       []op `json:"ops"`
 }
 
@@ -212,15 +215,22 @@ func handle(q req) resp {
 		subjects[i] = fmt.Sprintf("%s.s%d", prefix, i)
 	}
 	var tokSeq int64
+	hw := 5 * time.Second
+	if q.HighWatermarkUs > 0 {
+		hw = time.Duration(q.HighWatermarkUs) * time.Microsecond
+	}
+	defaultStarted := frugal.NewDefaultFNatsServerOnRequestStarted(hw)
 	b := frugal.NewFNatsServerBuilder(srvConn, &proc{rec: rec},
 		frugal.NewFProtocolFactory(thrift.NewTBinaryProtocolFactoryDefault()), subjects).
 		WithWorkerCount(uint(q.Workers)).WithQueueLength(uint(q.QLen)).
 		WithRequestReceivedEventHandler(func(m map[interface{}]interface{}) {
+			frugal.DefaultFNatsServerOnRequestReceived(m)
 			t := atomic.AddInt64(&tokSeq, 1)
 			m[tokenKey{}] = t
 			rec.add(3, t, goid())
 		}).
 		WithRequestStartedEventHandler(func(m map[interface{}]interface{}) {
+			defaultStarted(m)
 			t, _ := m[tokenKey{}].(int64)
 			rec.add(4, t, 0)
 		}).
@@ -228,6 +238,9 @@ func handle(q req) resp {
 			t, _ := m[tokenKey{}].(int64)
 			rec.add(6, t, 0)
 		})
+	if q.HighWatermarkUs > 0 {
+		b = b.WithHighWatermark(hw)
+	}
 	srv := b.Build()
 
 	serveDone := make(chan struct{})
